@@ -1544,6 +1544,12 @@ impl<'a> Visitor<'a, '_, Error> for JSONValidator<'a> {
           if is_ident_string_data_type(self.state.cddl, ident)
             || is_ident_numeric_data_type(self.state.cddl, ident)
           {
+            // The target type itself has to match before the control is applied
+            let error_count = self.errors.len();
+            self.visit_type2(target)?;
+            if self.errors.len() != error_count {
+              return Ok(());
+            }
             self.state.ctrl = Some(ctrl);
             self.visit_type2(controller)?;
             self.state.ctrl = None;
@@ -1576,6 +1582,12 @@ impl<'a> Visitor<'a, '_, Error> for JSONValidator<'a> {
       ControlOperator::LT | ControlOperator::GT | ControlOperator::GE | ControlOperator::LE => {
         match target {
           Type2::Typename { ident, .. } if is_ident_numeric_data_type(self.state.cddl, ident) => {
+            // The target type itself has to match before the control is applied
+            let error_count = self.errors.len();
+            self.visit_type2(target)?;
+            if self.errors.len() != error_count {
+              return Ok(());
+            }
             self.state.ctrl = Some(ctrl);
             self.visit_type2(controller)?;
             self.state.ctrl = None;
@@ -1593,6 +1605,12 @@ impl<'a> Visitor<'a, '_, Error> for JSONValidator<'a> {
           if is_ident_string_data_type(self.state.cddl, ident)
             || is_ident_uint_data_type(self.state.cddl, ident) =>
         {
+          // The target type itself has to match before the control is applied
+          let error_count = self.errors.len();
+          self.visit_type2(target)?;
+          if self.errors.len() != error_count {
+            return Ok(());
+          }
           self.state.ctrl = Some(ctrl);
           self.visit_type2(controller)?;
           self.state.ctrl = None;
